@@ -210,6 +210,8 @@ class ExprMixin:
                     return Const(r)
             if a == b and op in ('eq', 'le', 'ge'):
                 return TRUE
+            if a == b and op in ('ne', 'lt', 'gt'):
+                return FALSE
         # canonical orientation: gt/ge -> lt/le with swapped operands
         if op == 'gt':
             return app('lt', P(b), P(a))
@@ -307,6 +309,11 @@ class ExprMixin:
                     return self.types[a]
                 if a[0] == 'app' and a[1].startswith('new:'):
                     return self.repo.cls(a[1][4:])
+                if a[0] == 'app' and a[1].startswith('call:') and a[1].endswith('.copy'):
+                    # X.copy() has the class of X
+                    for pr in a[2]:
+                        if isinstance(pr, Tup) and pr.items[0] == Const('self'):
+                            return self.class_of(pr.items[1])
                 if a[0] == 'fresh' and a in self.types:
                     return self.types[a]
                 # element of Wavefront.data is a Field
